@@ -41,6 +41,20 @@ class FuncSrc(object):
         self.loops = out
         for i, l in enumerate(out):
             l._ordinal = i
+        # list comprehensions are numbered separately ('c0', 'c1', ...): one whose element expression has effects
+        # (calls a function under contract) is executed as the loop it abbreviates, under loops={'c<n>': ...}
+        comps = []
+
+        def walkc(n):
+            for ch in ast.iter_child_nodes(n):
+                if isinstance(ch, (ast.FunctionDef, ast.Lambda, ast.ClassDef)):
+                    continue
+                if isinstance(ch, ast.ListComp):
+                    comps.append(ch)
+                walkc(ch)
+        walkc(self.node)
+        for i, c in enumerate(comps):
+            c._comp_ordinal = i
 
     @property
     def lineno(self):
